@@ -60,6 +60,10 @@ pub struct PortScript {
     pub modes: Vec<RMode>,
     /// Receiver pauses between receive calls (driven by the tape).
     pub slow_receiver: bool,
+    /// Poll budgets after which a pending receive call is dropped and re-issued (cyclic; 0 = never),
+    /// as a caller using select! or a timeout around recv would do.
+    #[serde(default)]
+    pub recv_cancel: Vec<u8>,
 }
 
 #[derive(Clone, Debug, Serialize, Deserialize, PartialEq, Eq, Hash)]
@@ -101,8 +105,9 @@ pub fn port_strategy(max_ops: usize) -> BoxedStrategy<PortScript> {
         proptest::collection::vec(op_strategy(), 0..max_ops),
         proptest::collection::vec(prop_oneof![Just(RMode::Recv), Just(RMode::Any)], 1..5),
         any::<bool>(),
+        prop_oneof![2 => Just(Vec::new()), 1 => proptest::collection::vec(0u8..=4, 1..4)],
     )
-        .prop_map(|(reverse, ops, modes, slow_receiver)| PortScript { reverse, ops, modes, slow_receiver })
+        .prop_map(|(reverse, ops, modes, slow_receiver, recv_cancel)| PortScript { reverse, ops, modes, slow_receiver, recv_cancel })
         .boxed()
 }
 
@@ -214,10 +219,30 @@ pub async fn sender_actor(
     drop(tx);
 }
 
+/// Runs a receive call; if a cancel budget applies, the pending future is dropped after that many
+/// polls and the call is re-issued (the documented-by-use cancel safety of recv/recv_any).
+macro_rules! with_recv_cancel {
+    ($cancel:expr, $ctr:expr, $call:expr) => {{
+        loop {
+            let budget = if $cancel.is_empty() { 0 } else { $cancel[$ctr % $cancel.len()] as u32 };
+            $ctr += 1;
+            if budget == 0 {
+                break $call.await;
+            }
+            match CancelAfter::new($call, Some(budget)).await {
+                Cancelled::Done(r) => break r,
+                Cancelled::Dropped => continue,
+            }
+        }
+    }};
+}
+pub(crate) use with_recv_cancel;
+
 pub async fn receiver_actor(
-    mut rx: chmux::Receiver, modes: Vec<RMode>, slow: bool, tape: Tape, log: Arc<Mutex<Vec<RItem>>>,
+    mut rx: chmux::Receiver, modes: Vec<RMode>, slow: bool, recv_cancel: Vec<u8>, tape: Tape, log: Arc<Mutex<Vec<RItem>>>,
 ) -> chmux::Receiver {
     let mut k = 0usize;
+    let mut cc = 0usize;
     loop {
         if slow {
             tape_pause(&tape, true).await;
@@ -225,7 +250,7 @@ pub async fn receiver_actor(
         let mode = modes[k % modes.len()];
         k += 1;
         match mode {
-            RMode::Recv => match rx.recv().await {
+            RMode::Recv => match with_recv_cancel!(recv_cancel, cc, rx.recv()) {
                 Ok(Some(buf)) => {
                     let b: Bytes = buf.into();
                     log.lock().unwrap().push(RItem::Msg(b, mode));
@@ -240,7 +265,7 @@ pub async fn receiver_actor(
                     break;
                 }
             },
-            RMode::Any => match rx.recv_any().await {
+            RMode::Any => match with_recv_cancel!(recv_cancel, cc, rx.recv_any()) {
                 Ok(Some(Received::Data(buf))) => {
                     let b: Bytes = buf.into();
                     log.lock().unwrap().push(RItem::Msg(b, mode));
@@ -251,7 +276,7 @@ pub async fn receiver_actor(
                         if slow {
                             tape_pause(&tape, true).await;
                         }
-                        match rx.recv_chunk().await {
+                        match with_recv_cancel!(recv_cancel, cc, rx.recv_chunk()) {
                             Ok(Some(c)) => acc.extend_from_slice(&c),
                             Ok(None) => {
                                 log.lock().unwrap().push(RItem::Msg(acc.freeze(), mode));
@@ -438,7 +463,7 @@ pub async fn execute(case: &Case) -> CaseRun {
         let slog = Arc::new(Mutex::new(Vec::new()));
         let rlog = Arc::new(Mutex::new(Vec::new()));
         let sh = spawn_actor(sender_actor(tx, p.ops.clone(), snd_cfg, rcv_cfg, tape.clone(), slog.clone(), pi as u32));
-        let rh = spawn_actor(receiver_actor(rx, p.modes.clone(), p.slow_receiver, tape.clone(), rlog.clone()));
+        let rh = spawn_actor(receiver_actor(rx, p.modes.clone(), p.slow_receiver, p.recv_cancel.clone(), tape.clone(), rlog.clone()));
         actors.push((sh, rh));
         logs.push((slog, rlog));
     }
@@ -535,9 +560,21 @@ pub fn run_case(case: &Case) -> Outcome {
         let _ = snd_cfg;
         let complete = p.sender_done && p.receiver_done;
         if !p.sender_done {
-            // A stalled sender is outside C01 (decided by C03); still check the prefix.
-            out.inconclusive = true;
+            // A send that never completes although the receiver keeps receiving: if it follows a
+            // cancelled / abandoned / failed send, that earlier send disturbed it (C01's
+            // cancel-atomicity clause). Without such a predecessor it is C03's subject only.
             out.class("sender-stalled");
+            if p.ops.iter().any(|o| matches!(o, OpResult::NotSent { .. })) {
+                out.fail(
+                    "C01/send-stalled-after-cancel",
+                    format!(
+                        "port {pi}: a send stays pending for {DEADLINE_S} virtual s (receiver keeps receiving) after earlier cancelled/abandoned/Full sends; completed so far {:?}",
+                        p.ops.iter().map(|o| match o { OpResult::Sent(b) => format!("Sent({})", b.len()), OpResult::NotSent { len, .. } => format!("NotSent({len})"), OpResult::Failed(e) => format!("Failed({e})") }).collect::<Vec<_>>()
+                    ),
+                );
+            } else {
+                out.inconclusive = true;
+            }
         } else if !p.receiver_done && !any_stalled {
             out.fail(
                 "C01/not-delivered",
@@ -571,6 +608,9 @@ pub fn run_case(case: &Case) -> Outcome {
     }
     if case.ports.len() > 1 {
         out.class("two-ports");
+    }
+    if case.ports.iter().any(|p| p.recv_cancel.iter().any(|c| *c > 0)) {
+        out.class("receive-calls-cancelled");
     }
     // C02 monitor piggy-backs (reported under C01 only as a class, the C02 check owns it).
     out
@@ -619,6 +659,7 @@ pub fn main(tier: Tier, seed: u64) -> Report {
 
 pub fn replay(_part: &str, case: serde_json::Value) -> (Option<runner::Failure>, u32, u32) {
     let case: Case = serde_json::from_value(case).expect("replay case does not parse as C01 case");
-    let (f, hits) = runner::replay_case(&case, run_case, 5);
-    (f, hits, 5)
+    let n = runner::replay_times(5);
+    let (f, hits) = runner::replay_case(&case, run_case, n);
+    (f, hits, n)
 }
